@@ -330,3 +330,408 @@ Proof.
     apply tr_ret. intros w [-> Hee]. right. unfold E, EP in *. lia. }
   apply tr_ret. auto.
 Qed.
+
+Lemma S_sys_pipe : tr (fun _ => True) sys_pipe (fun rab w' => fst (fst rab) = 0 \/ (fst (fst rab) = -1 /\ EP w')).
+Proof.
+  intros w W _. pose proof (pc_sys_pipe w W) as Hpc.
+  unfold sys_pipe in *. unfold bind at 1 in Hpc. unfold bind at 1.
+  pose proof (prelude_spec w W) as Hp. destruct (prelude w) as [f w0|w0|w0|y w0]; auto.
+  destruct Hp as (W0 & _).
+  assert (Hfail : forall e, 0 < e ->
+    match (fail CPipe [] [] e;> ret (-1, -1, -1)) w0 with Ret rab w' => fst (fst rab) = 0 \/ (fst (fst rab) = -1 /\ EP w') | _ => True end).
+  { intros e He. rewrite run_fail_ret. right. split; [reflexivity|]. unfold EP. rewrite (E_after_seterr e _ w0 W0). exact He. }
+  destruct f as [e|].
+  - specialize (Hfail (Z.pos e) ltac:(lia)). destruct ((fail CPipe [] [] (Z.pos e);> ret (-1, -1, -1)) w0); auto.
+  - unfold bind at 1, get in Hpc. unfold bind at 1, get. cbv beta iota zeta in *.
+    destruct (fd_alloc (pr_fds (curp w0)) (pr_rlimit (curp w0))) as [a|].
+    2:{ specialize (Hfail EMFILE ltac:(unfold EMFILE; lia)). destruct ((fail CPipe [] [] EMFILE;> ret (-1, -1, -1)) w0); auto. }
+    destruct (fd_alloc _ (pr_rlimit (curp w0))) as [b|].
+    2:{ specialize (Hfail EMFILE ltac:(unfold EMFILE; lia)). destruct ((fail CPipe [] [] EMFILE;> ret (-1, -1, -1)) w0); auto. }
+    match goal with |- match ?m w0 with _ => _ end => destruct (m w0) as [[[r x] y] w1|w1|w1|y0 w1] eqn:Er; auto end.
+    split; [exact Hpc|]. left.
+    unfold bind, modify, set_cur_fds, done, log, ret in Er. cbn in Er. injection Er as <- _ _ _. reflexivity.
+Qed.
+
+Lemma S_pipe_init : tr (fun _ => True) pipe_init (fun rp w' => match snd rp with None => fst rp < 0 | Some _ => fst rp = 0 end).
+Proof.
+  unfold pipe_init.
+  eapply tr_bind; [apply S_sys_pipe|]. intros [[r a] b]; cbv beta. cbn [fst].
+  destruct (Z.ltb_spec r 0).
+  { apply tr_pre. intros w0 [Hz|[-> He]]; [lia|].
+    eapply tr_bind; [apply tr_get_errno|]. intros e; cbv beta.
+    apply tr_pre. intros w1 [-> Hee]. assert (0 < e) by (unfold E, EP in *; lia).
+    eapply tr_bind; [apply tr_of_pc, pc_pipe_destroy|]. intros u1; cbv beta.
+    eapply tr_bind; [apply tr_of_pc, pc_pipe_destroy|]. intros u2; cbv beta.
+    apply tr_ret. intros w _. cbn. lia. }
+  eapply tr_bind; [eapply tr_conseq; [| |apply S_handle_cloexec]; [intros w X; exact I|intros x w X; exact X]|]. intros r1; cbv beta.
+  destruct (Z.ltb_spec r1 0).
+  { eapply tr_bind; [apply tr_of_pc, pc_pipe_destroy|]. intros u1; cbv beta.
+    eapply tr_bind; [apply tr_of_pc, pc_pipe_destroy|]. intros u2; cbv beta. apply tr_ret. intros w _. cbn. exact H0. }
+  eapply tr_bind; [eapply tr_conseq; [| |apply S_handle_cloexec]; [intros w X; exact I|intros x w X; exact X]|]. intros r2; cbv beta.
+  destruct (Z.ltb_spec r2 0).
+  { eapply tr_bind; [apply tr_of_pc, pc_pipe_destroy|]. intros u1; cbv beta.
+    eapply tr_bind; [apply tr_of_pc, pc_pipe_destroy|]. intros u2; cbv beta. apply tr_ret. intros w _. cbn. exact H1. }
+  apply tr_pre. intros w0 Hr2.
+  eapply tr_bind; [apply tr_of_pc, pc_pipe_destroy|]. intros u1; cbv beta.
+  eapply tr_bind; [apply tr_of_pc, pc_pipe_destroy|]. intros u2; cbv beta.
+  apply tr_ret. intros w _. cbn. destruct Hr2; lia.
+Qed.
+
+Lemma S_sigfillset : tr (fun _ => True) sys_sigfillset (fun r w' => r = 0 \/ (r = -1 /\ EP w')).
+Proof.
+  intros w W _. pose proof (pc_sys_sigfillset w W) as Hpc.
+  unfold sys_sigfillset in *. unfold bind at 1 in Hpc. unfold bind at 1.
+  pose proof (prelude_spec w W) as Hp. destruct (prelude w) as [f w0|w0|w0|y w0]; auto.
+  destruct Hp as (W0 & _). destruct f as [e|].
+  - rewrite run_fail in *. split; [exact Hpc|]. right. split; [reflexivity|]. unfold EP. rewrite (E_after_seterr _ _ w0 W0). lia.
+  - rewrite run_done in *. split; [exact Hpc|]. left. reflexivity.
+Qed.
+
+Lemma tr_run {A} (m : MW A) (P : world -> Prop) Q w a w' : tr P m Q -> wf w -> P w -> m w = Ret a w' -> pcpost w w' /\ Q a w'.
+Proof. intros H W Hp E0. specialize (H w W Hp). rewrite E0 in H. exact H. Qed.
+
+Lemma FK_pq base pid w w' : pq w w' -> FK base pid w -> FK base pid w'.
+Proof.
+  intros (_ & C & _ & (l & T)) (l1 & ev & T1 & Hin & Hc & Hr & Hp). exists (l ++ l1), ev.
+  split; [rewrite T, T1, app_assoc; reflexivity|]. split; [apply in_or_app; right; exact Hin|]. rewrite C. auto.
+Qed.
+
+(* process_fork: a negative error, or the positive pid returned by the fork call it made *)
+Theorem process_fork_result except ck w r w' :
+  wf w -> 0 <= w_cur w -> kp (w_cur w) ck ->
+  process_fork except ck w = Ret r w' ->
+  r < 0 \/ (0 < r /\ FK (w_trace w) r w').
+Proof.
+  intros W Hpos Hk E0. unfold process_fork in E0.
+  apply bind_inv in E0 as (r0 & w1 & E1 & E0).
+  destruct (tr_run _ _ _ _ _ _ S_sigfillset W I E1) as [P1 H1].
+  destruct (Z.ltb_spec r0 0).
+  { apply bind_inv in E0 as (e & w1' & Eg & E0). apply gets_inv in Eg as [-> ->]. apply ret_inv in E0 as [-> ->].
+    left. destruct H1 as [->|[_ He]]; [lia|]. unfold EP in He. lia. }
+  apply bind_inv in E0 as ([r1 old] & w2 & E2 & E0). cbv beta iota in E0.
+  destruct (signal_mask_set _ _ _ _ _ ltac:(apply P1) E2) as [Q2 H2].
+  destruct (Z.ltb_spec r1 0). { apply ret_inv in E0 as [-> ->]. left; assumption. }
+  apply bind_inv in E0 as ([r2 pp] & w3 & E3 & E0). cbv beta iota in E0.
+  destruct (tr_run _ _ _ _ _ _ S_pipe_init ltac:(apply Q2) I E3) as [P3 H3]. cbn [fst snd] in H3.
+  destruct pp as [[prd pwr]|].
+  2:{ apply bind_inv in E0 as (x & w4 & E4 & E0). apply ret_inv in E0 as [-> ->]. left; assumption. }
+  apply bind_inv in E0 as (r3 & w4 & E4 & E0).
+  assert (C3 : w_cur w3 = w_cur w).
+  { destruct P3 as (_ & C3 & _). destruct Q2 as (_ & C2 & _). destruct P1 as (_ & C1 & _). congruence. }
+  assert (T3 : exists l, w_trace w3 = l ++ w_trace w).
+  { destruct P3 as (_ & _ & _ & (l3 & T3) & _). destruct Q2 as (_ & _ & _ & (l2 & T2)). destruct P1 as (_ & _ & _ & (l1 & T1) & _).
+    exists (l3 ++ l2 ++ l1). rewrite T3, T2, T1, !app_assoc. reflexivity. }
+  assert (Hk3 : kp (w_cur w3) (fork_child_part prd pwr except ck)) by (rewrite C3; apply kp_fork_child_part, Hk).
+  destruct (sys_fork_spec _ _ _ _ ltac:(apply P3) ltac:(rewrite C3; exact Hpos) Hk3 E4) as [P4 H4].
+  destruct (Z.ltb_spec r3 0).
+  { apply bind_inv in E0 as (e & w4' & Eg & E0). apply gets_inv in Eg as [-> ->]. cbv zeta in E0.
+    apply bind_inv in E0 as (x5 & w5 & E5 & E0). apply bind_inv in E0 as (x6 & w6 & E6 & E0).
+    apply bind_inv in E0 as (x7 & w7 & E7 & E0). apply ret_inv in E0 as [-> ->].
+    left. destruct H4 as [[_ He]|[Hgt _]]; [lia|lia]. }
+  destruct H4 as [[-> _]|[Hgt (ev & l4 & T4 & Hc4 & Hr4 & Hp4)]]; [lia|].
+  cbv zeta in E0.
+  assert (F4 : FK (w_trace w) r3 w4).
+  { destruct T3 as [l3 T3]. exists (ev :: l4 ++ l3), ev. split; [rewrite T4, T3; cbn; rewrite app_assoc; reflexivity|].
+    split; [left; reflexivity|]. split; [exact Hc4|]. split; [exact Hr4|]. rewrite Hp4. destruct P4 as (_ & C4 & _). congruence. }
+  apply bind_inv in E0 as ([r5 o5] & w5 & E5 & E0).
+  destruct (signal_mask_set _ _ _ _ _ ltac:(apply P4) E5) as [Q5 _].
+  apply bind_inv in E0 as (x6 & w6 & E6 & E0). pose proof (pc_run _ _ _ _ (pc_pipe_destroy _) ltac:(apply Q5) E6) as P6.
+  apply bind_inv in E0 as ([q rs] & w7 & E7 & E0). pose proof (pc_run _ _ _ _ (pc_read_errpipe _) ltac:(apply P6) E7) as P7.
+  cbv beta iota zeta in E0.
+  apply bind_inv in E0 as (r8 & w8 & E8 & E0).
+  apply bind_inv in E0 as (x9 & w9 & E9 & E0). apply ret_inv in E0 as [-> ->].
+  destruct (Z.ltb_spec 0 (if q <? 0 then 0 else decode_int (runs_bytes rs))) as [Hce|Hce].
+  - (* the child reported an error: the result is negative *)
+    left. apply bind_inv in E8 as ([rw stw] & w8' & Ew & E8).
+    destruct (sys_waitpid_spec _ _ _ _ _ ltac:(apply P7) Hgt Ew) as (W8 & _ & [[-> He]|(-> & _)]).
+    + change (-1 <? 0) with true in E8. cbv iota in E8.
+      apply bind_inv in E8 as (e & w8'' & Eg & E8). apply gets_inv in Eg as [-> ->]. apply ret_inv in E8 as [-> _].
+      destruct (Z.ltb_spec (- pr_errno (curp w8')) 0); lia.
+    + destruct (Z.ltb_spec r3 0); [lia|]. apply ret_inv in E8 as [-> _].
+      destruct (Z.ltb_spec (- (if q <? 0 then 0 else decode_int (runs_bytes rs))) 0); lia.
+  - apply ret_inv in E8 as [-> ->]. destruct (Z.ltb_spec r3 0); [lia|]. right. split; [exact Hgt|].
+    pose proof (pc_run _ _ _ _ (pc_pipe_destroy _) ltac:(apply P7) E9) as P9.
+    eapply FK_mono; [exact P9|]. eapply FK_mono; [exact P7|]. eapply FK_mono; [exact P6|]. eapply FK_pq; [exact Q5|exact F4].
+Qed.
+
+(* the frame part of process_fork without any assumption on the mask *)
+Lemma process_fork_pq except ck w r w' :
+  wf w -> 0 <= w_cur w -> kp (w_cur w) ck -> process_fork except ck w = Ret r w' -> pq w w'.
+Proof.
+  intros W Hpos Hk E0. unfold process_fork in E0.
+  apply bind_inv in E0 as (r0 & w1 & E1 & E0).
+  pose proof (pc_run _ _ _ _ pc_sys_sigfillset W E1) as P1.
+  destruct (r0 <? 0).
+  { apply bind_inv in E0 as (e & w1' & Eg & E0). apply gets_inv in Eg as [-> ->]. apply ret_inv in E0 as [-> ->].
+    apply pq_of_pcpost, P1. }
+  apply bind_inv in E0 as ([r1 old] & w2 & E2 & E0). cbv beta iota in E0.
+  destruct (signal_mask_set _ _ _ _ _ ltac:(apply P1) E2) as [Q2 _].
+  assert (Q02 : pq w w2) by (eapply pq_trans; [apply pq_of_pcpost, P1|exact Q2]).
+  destruct (r1 <? 0). { apply ret_inv in E0 as [-> ->]. exact Q02. }
+  apply bind_inv in E0 as ([r2 pp] & w3 & E3 & E0). cbv beta iota in E0.
+  pose proof (pc_run _ _ _ _ pc_pipe_init ltac:(apply Q2) E3) as P3.
+  assert (Q03 : pq w w3) by (eapply pq_pc; eassumption).
+  assert (C3 : w_cur w3 = w_cur w) by apply Q03.
+  destruct pp as [[prd pwr]|].
+  2:{ apply bind_inv in E0 as ([r3 o3] & w4 & E4 & E0). apply ret_inv in E0 as [-> ->].
+      destruct (signal_mask_set _ _ _ _ _ ltac:(apply P3) E4) as [Q4 _]. eapply pq_trans; eassumption. }
+  apply bind_inv in E0 as (r3 & w4 & E4 & E0).
+  assert (Hk3 : kp (w_cur w3) (fork_child_part prd pwr except ck)) by (rewrite C3; apply kp_fork_child_part, Hk).
+  destruct (sys_fork_spec _ _ _ _ ltac:(apply P3) ltac:(rewrite C3; exact Hpos) Hk3 E4) as [P4 _].
+  assert (Q04 : pq w w4) by (eapply pq_pc; eassumption).
+  destruct (r3 <? 0).
+  { apply bind_inv in E0 as (e & w4' & Eg & E0). apply gets_inv in Eg as [-> ->]. cbv zeta in E0.
+    apply bind_inv in E0 as ([r5 o5] & w5 & E5 & E0).
+    destruct (signal_mask_set _ _ _ _ _ ltac:(apply P4) E5) as [Q5 _].
+    apply bind_inv in E0 as (x6 & w6 & E6 & E0). pose proof (pc_run _ _ _ _ (pc_pipe_destroy _) ltac:(apply Q5) E6) as P6.
+    apply bind_inv in E0 as (x7 & w7 & E7 & E0). pose proof (pc_run _ _ _ _ (pc_pipe_destroy _) ltac:(apply P6) E7) as P7.
+    apply ret_inv in E0 as [-> ->].
+    eapply pq_pc; [eapply pq_pc; [eapply pq_trans; eassumption|exact P6]|exact P7]. }
+  cbv zeta in E0.
+  apply bind_inv in E0 as ([r5 o5] & w5 & E5 & E0).
+  destruct (signal_mask_set _ _ _ _ _ ltac:(apply P4) E5) as [Q5 _].
+  apply bind_inv in E0 as (x6 & w6 & E6 & E0). pose proof (pc_run _ _ _ _ (pc_pipe_destroy _) ltac:(apply Q5) E6) as P6.
+  apply bind_inv in E0 as ([q rs] & w7 & E7 & E0). pose proof (pc_run _ _ _ _ (pc_read_errpipe _) ltac:(apply P6) E7) as P7.
+  cbv beta iota zeta in E0.
+  apply bind_inv in E0 as (r8 & w8 & E8 & E0).
+  assert (P8 : pcpost w7 w8).
+  { destruct (0 <? (if q <? 0 then 0 else decode_int (runs_bytes rs))).
+    - apply bind_inv in E8 as ([rw stw] & w8' & Ew & E8).
+      pose proof (pc_run _ _ _ _ (pc_sys_waitpid _) ltac:(apply P7) Ew) as Pw.
+      destruct (rw <? 0).
+      + apply bind_inv in E8 as (e & w8'' & Eg & E8). apply gets_inv in Eg as [-> ->]. apply ret_inv in E8 as [_ ->]. exact Pw.
+      + apply ret_inv in E8 as [_ ->]. exact Pw.
+    - apply ret_inv in E8 as [_ ->]. apply pcpost_refl, P7. }
+  apply bind_inv in E0 as (x9 & w9 & E9 & E0). pose proof (pc_run _ _ _ _ (pc_pipe_destroy _) ltac:(apply P8) E9) as P9.
+  apply ret_inv in E0 as [-> ->].
+  eapply pq_pc; [|exact P9]. eapply pq_pc; [|exact P8]. eapply pq_pc; [|exact P7]. eapply pq_pc; [|exact P6].
+  eapply pq_trans; eassumption.
+Qed.
+
+Lemma process_start_pq pr argv o ck w r pid w' :
+  wf w -> 0 <= w_cur w -> kp (w_cur w) ck ->
+  process_start pr argv o ck w = Ret (r, pid) w' -> pq w w'.
+Proof.
+  intros W Hpos Hk E. unfold process_start in E. cbv zeta in E.
+  assert (Hdone : forall w1, pcpost w w1 -> pq w w1) by (intros w1 P; apply pq_of_pcpost, P).
+  apply bind_inv in E as ([r1 pp] & w1 & E1 & E). cbv beta iota in E.
+  pose proof (pc_run _ _ _ _ pc_pipe_init W E1) as P1.
+  destruct pp as [[prd pwr]|].
+  2:{ apply Hdone. eapply pcpost_trans; [exact P1|]. exact (pc_run _ _ _ _ (pc_finish _ _ _ _ _) ltac:(apply P1) E). }
+  apply bind_inv in E as (pg & w2 & E2 & E).
+  assert (P2 : pcpost w1 w2).
+  { destruct argv as [[|a0 av]|]; try (apply ret_inv in E2 as [_ ->]; apply pcpost_refl, P1).
+    destruct (isSome (po_wd o) && path_is_relative a0).
+    - exact (pc_run _ _ _ _ (pc_path_prepend_cwd _) ltac:(apply P1) E2).
+    - apply bind_inv in E2 as (b & w2' & Eb & E2). apply ret_inv in E2 as [_ ->].
+      exact (pc_run _ _ _ _ (pc_heap_alloc _ _ _) ltac:(apply P1) Eb). }
+  assert (P02 : pcpost w w2) by (eapply pcpost_trans; eassumption).
+  match type of E with (if ?b then _ else _) _ = _ => destruct b end.
+  { apply bind_inv in E as (e & w2' & Eg & E). apply gets_inv in Eg as [-> ->].
+    apply Hdone. eapply pcpost_trans; [exact P02|]. exact (pc_run _ _ _ _ (pc_finish _ _ _ _ _) ltac:(apply P02) E). }
+  apply bind_inv in E as (penv & w2' & Eg & E). apply gets_inv in Eg as [-> ->].
+  apply bind_inv in E as (env & w3 & E3 & E).
+  pose proof (pc_run _ _ _ _ (pc_strv_concat _ _) ltac:(apply P02) E3) as P3.
+  assert (P03 : pcpost w w3) by (eapply pcpost_trans; eassumption).
+  destruct env as [env|].
+  2:{ apply bind_inv in E as (e & w3' & Eg & E). apply gets_inv in Eg as [-> ->].
+      apply Hdone. eapply pcpost_trans; [exact P03|]. exact (pc_run _ _ _ _ (pc_finish _ _ _ _ _) ltac:(apply P03) E). }
+  apply bind_inv in E as (r4 & w4 & E4 & E).
+  assert (C3 : w_cur w3 = w_cur w) by apply P03.
+  destruct P03 as (W3 & _ & S3 & (l3 & T3) & B3).
+  assert (Hk3 : kp (w_cur w3) (start_child_part prd pwr argv pg (Some env) o ck)) by (rewrite C3; apply kp_start_child_part, Hk).
+  pose proof (process_fork_pq _ _ _ _ _ W3 ltac:(rewrite C3; exact Hpos) Hk3 E4) as Q4.
+  assert (Q04 : pq w w4).
+  { eapply pq_trans; [|exact Q4]. apply pq_of_pcpost. split; [exact W3|]. split; [exact C3|]. split; [exact S3|]. split; [exists l3; exact T3|exact B3]. }
+  assert (Hrest : forall w5, pcpost w4 w5 -> pq w w5) by (intros w5 P5; eapply pq_pc; eassumption).
+  destruct (r4 <? 0).
+  { apply Hrest. exact (pc_run _ _ _ _ (pc_finish _ _ _ _ _) ltac:(apply Q4) E). }
+  apply bind_inv in E as (x5 & w5 & E5 & E). pose proof (pc_run _ _ _ _ (pc_pipe_destroy _) ltac:(apply Q4) E5) as P5.
+  apply bind_inv in E as ([q rs] & w6 & E6 & E). pose proof (pc_run _ _ _ _ (pc_read_errpipe _) ltac:(apply P5) E6) as P6.
+  cbv beta iota zeta in E.
+  assert (P46 : pcpost w4 w6) by (eapply pcpost_trans; eassumption).
+  destruct (0 <? (if q <? 0 then 0 else decode_int (runs_bytes rs))).
+  - apply bind_inv in E as ([rw stw] & w7 & E7 & E). pose proof (pc_run _ _ _ _ (pc_sys_waitpid _) ltac:(apply P6) E7) as P7.
+    cbv beta iota in E.
+    apply bind_inv in E as (r8 & w8 & E8 & E).
+    assert (P8 : pcpost w7 w8).
+    { destruct (rw <? 0).
+      - apply bind_inv in E8 as (e & w8' & Eg & E8). apply gets_inv in Eg as [-> ->]. apply ret_inv in E8 as [_ ->]. apply pcpost_refl, P7.
+      - apply ret_inv in E8 as [_ ->]. apply pcpost_refl, P7. }
+    apply Hrest. eapply pcpost_trans; [exact P46|]. eapply pcpost_trans; [exact P7|]. eapply pcpost_trans; [exact P8|].
+    exact (pc_run _ _ _ _ (pc_finish _ _ _ _ _) ltac:(apply P8) E).
+  - apply Hrest. eapply pcpost_trans; [exact P46|]. exact (pc_run _ _ _ _ (pc_finish _ _ _ _ _) ltac:(apply P6) E).
+Qed.
+
+Lemma finish_val {A B} (m : MW A) (x : B) w a w' : (m;> ret x) w = Ret a w' -> a = x.
+Proof. intros E0. apply bind_inv in E0 as (u & w1 & _ & E0). apply ret_inv in E0 as [-> _]. reflexivity. Qed.
+
+(* THE RESULT OF process_start, every fault plan: a negative error with the handle untouched, or 1
+   with the positive pid returned by the fork call of this very start *)
+Theorem process_start_result pr argv o ck w r pid w' :
+  wf w -> 0 <= w_cur w -> NB w -> kp (w_cur w) ck -> argv <> Some [] ->
+  process_start pr argv o ck w = Ret (r, pid) w' ->
+  (r < 0 /\ pid = pr) \/ (r = 1 /\ 0 < pid /\ FK (w_trace w) pid w').
+Proof.
+  intros W Hpos Hnb Hk Hav E0. unfold process_start in E0. cbv zeta in E0.
+  (* the shape of every exit through the common block *)
+  assert (Hfin : forall (v : Z * Z) prd pwr blk env w1,
+            (pipe_destroy prd;> pipe_destroy pwr;> sys_free blk;> strv_free env;> ret v) w1 = Ret (r, pid) w' -> (r, pid) = v).
+  { intros v prd pwr blk env w1 Ef.
+    apply bind_inv in Ef as (u1 & v1 & _ & Ef). apply bind_inv in Ef as (u2 & v2 & _ & Ef).
+    apply bind_inv in Ef as (u3 & v3 & _ & Ef). apply bind_inv in Ef as (u4 & v4 & _ & Ef).
+    apply ret_inv in Ef as [Ef _]. exact Ef. }
+  assert (Hneg : forall r0 prd pwr blk env w1, r0 < 0 ->
+            (pipe_destroy prd;> pipe_destroy pwr;> sys_free blk;> strv_free env;> ret (if r0 <? 0 then r0 else 1, pr)) w1 = Ret (r, pid) w' ->
+            (r < 0 /\ pid = pr) \/ (r = 1 /\ 0 < pid /\ FK (w_trace w) pid w')).
+  { intros r0 prd pwr blk env w1 Hr0 Ef. apply Hfin in Ef. injection Ef as -> ->.
+    left. destruct (Z.ltb_spec r0 0); [auto|lia]. }
+  apply bind_inv in E0 as ([r1 pp] & w1 & E1 & E0). cbv beta iota in E0.
+  destruct (tr_run _ _ _ _ _ _ S_pipe_init W I E1) as [P1 H1]. cbn [fst snd] in H1.
+  destruct pp as [[prd pwr]|]; [|eapply Hneg; [exact H1|exact E0]].
+  apply bind_inv in E0 as (pg & w2 & E2 & E0).
+  assert (Nb1 : NB w1) by (eapply NB_mono; eassumption).
+  assert (P2 : pcpost w1 w2 /\ (argv <> None -> pg = None -> EP w2)).
+  { destruct argv as [[|a0 av]|].
+    - contradiction.
+    - destruct (isSome (po_wd o) && path_is_relative a0).
+      + destruct (tr_run _ _ _ _ _ _ (S_path_prepend_cwd a0) ltac:(apply P1) Nb1 E2) as [P2 H2]. auto.
+      + apply bind_inv in E2 as (b & w2' & Eb & E2). apply ret_inv in E2 as [-> ->].
+        destruct (tr_run _ _ _ _ _ _ (S_heap_alloc _ _ _) ltac:(apply P1) Nb1 Eb) as [P2 H2]. split; [exact P2|].
+        intros _ Hn. destruct H2 as [[_ He]|[Hlt _]]; [exact He|]. destruct (Z.eqb_spec b 0); [lia|discriminate].
+    - apply ret_inv in E2 as [-> ->]. split; [apply pcpost_refl, P1|]. intros X; contradiction. }
+  destruct P2 as [P2 H2].
+  assert (P02 : pcpost w w2) by (eapply pcpost_trans; eassumption).
+  match type of E0 with (if ?b then _ else _) _ = _ => destruct b eqn:Epf end.
+  { apply bind_inv in E0 as (e & w2' & Eg & E0). apply gets_inv in Eg as [-> ->].
+    eapply Hneg; [|exact E0].
+    assert (EP w2). { destruct argv as [av|]; [|discriminate]. destruct pg; [discriminate|]. apply H2; [discriminate|reflexivity]. }
+    unfold EP in *. lia. }
+  apply bind_inv in E0 as (penv & w2' & Eg & E0). apply gets_inv in Eg as [-> ->].
+  apply bind_inv in E0 as (env & w3 & E3 & E0).
+  destruct (tr_run _ _ _ _ _ _ (S_strv_concat _ _) ltac:(apply P02) ltac:(eapply NB_mono; eassumption) E3) as [P3 H3].
+  assert (P03 : pcpost w w3) by (eapply pcpost_trans; eassumption).
+  destruct env as [env|].
+  2:{ apply bind_inv in E0 as (e & w3' & Eg & E0). apply gets_inv in Eg as [-> ->].
+      eapply Hneg; [|exact E0]. specialize (H3 eq_refl). unfold EP in H3. lia. }
+  apply bind_inv in E0 as (r4 & w4 & E4 & E0).
+  assert (C3 : w_cur w3 = w_cur w) by apply P03.
+  destruct P03 as (W3 & _ & _ & (l3 & T3) & _).
+  assert (Hk3 : kp (w_cur w3) (start_child_part prd pwr argv pg (Some env) o ck)) by (rewrite C3; apply kp_start_child_part, Hk).
+  pose proof (process_fork_result _ _ _ _ _ W3 ltac:(rewrite C3; exact Hpos) Hk3 E4) as H4.
+  pose proof (process_fork_pq _ _ _ _ _ W3 ltac:(rewrite C3; exact Hpos) Hk3 E4) as Q4.
+  destruct (r4 <? 0) eqn:E4lt.
+  { apply Hfin in E0. injection E0 as -> ->. left. split; [apply Z.ltb_lt; exact E4lt|reflexivity]. }
+  apply Z.ltb_ge in E4lt.
+  destruct H4 as [Hlt|[Hgt F4]]; [lia|].
+  assert (F4' : FK (w_trace w) r4 w4).
+  { destruct F4 as (l & ev & T4 & X). exists (l ++ l3), ev. split; [rewrite T4, T3, app_assoc; reflexivity|].
+    destruct X as (Hin & X). split; [apply in_or_app; left; exact Hin|exact X]. }
+  apply bind_inv in E0 as (x5 & w5 & E5 & E0). pose proof (pc_run _ _ _ _ (pc_pipe_destroy _) ltac:(apply Q4) E5) as P5.
+  apply bind_inv in E0 as ([q rs] & w6 & E6 & E0). pose proof (pc_run _ _ _ _ (pc_read_errpipe _) ltac:(apply P5) E6) as P6.
+  cbv beta iota zeta in E0.
+  destruct (Z.ltb_spec 0 (if q <? 0 then 0 else decode_int (runs_bytes rs))) as [Hce|Hce].
+  - (* the child reported an error *)
+    apply bind_inv in E0 as ([rw stw] & w7 & E7 & E0). cbv beta iota in E0.
+    destruct (sys_waitpid_spec _ _ _ _ _ ltac:(apply P6) Hgt E7) as (W7 & _ & Hw).
+    apply bind_inv in E0 as (r8 & w8 & E8 & E0).
+    assert (Hr8 : r8 < 0).
+    { destruct Hw as [[-> He]|(-> & _)].
+      - change (-1 <? 0) with true in E8. cbv iota in E8.
+        apply bind_inv in E8 as (e & w8' & Eg & E8). apply gets_inv in Eg as [-> ->]. apply ret_inv in E8 as [-> _]. lia.
+      - destruct (Z.ltb_spec r4 0); [lia|]. apply ret_inv in E8 as [-> _]. lia. }
+    eapply Hneg; [exact Hr8|exact E0].
+  - pose proof (pc_run _ _ _ _ (pc_finish _ _ _ _ _) ltac:(apply P6) E0) as P7.
+    apply Hfin in E0. injection E0 as -> ->. right. split; [reflexivity|]. split; [exact Hgt|].
+    eapply FK_mono; [exact P7|]. eapply FK_mono; [exact P6|]. eapply FK_mono; [exact P5|exact F4'].
+Qed.
+
+Lemma parse_options_empty_argv o : parse_options o ArgvEmpty = None.
+Proof.
+  unfold parse_options.
+  destruct (parse_redirect (o_in o) _ _ _ _ _); [|reflexivity].
+  destruct (parse_redirect (o_out o) _ _ _ _ _); [|reflexivity].
+  destruct (parse_redirect (o_err o) _ _ _ _ _); [|reflexivity].
+  destruct (o_input_data o && _); [reflexivity|]. destruct ((0 <? o_input_size o) && _); [reflexivity|].
+  destruct (o_fork o); reflexivity.
+Qed.
+
+(* ---- the exit block of reproc_start: result and handle state ---- *)
+Lemma start_finish_result p r o cin cout cerr cexit w r' p' w' :
+  start_finish p r o cin cout cerr cexit w = Ret (r', p') w' ->
+  r' = r /\ (r < 0 -> h_handle p' = PROCESS_INVALID /\ h_status p' = h_status p)
+         /\ (0 < r -> h_handle p' = h_handle p /\ h_status p' = STATUS_IN_PROGRESS).
+Proof.
+  intros E0. unfold start_finish in E0.
+  apply bind_inv in E0 as (u1 & w1 & _ & E0). apply bind_inv in E0 as (co & w2 & _ & E0). apply bind_inv in E0 as (ce & w3 & _ & E0).
+  apply bind_inv in E0 as (u4 & w4 & _ & E0).
+  destruct (Z.ltb_spec r 0).
+  - apply bind_inv in E0 as (i1 & v1 & _ & E0). apply bind_inv in E0 as (i2 & v2 & _ & E0).
+    apply bind_inv in E0 as (i3 & v3 & _ & E0). apply bind_inv in E0 as (i4 & v4 & _ & E0).
+    apply ret_inv in E0 as [E0 _]. injection E0 as -> ->. split; [reflexivity|]. split; [intros _; split; reflexivity|lia].
+  - destruct (Z.eqb_spec r 0).
+    + apply ret_inv in E0 as [E0 _]. injection E0 as -> ->. split; [reflexivity|]. split; lia.
+    + apply ret_inv in E0 as [E0 _]. injection E0 as -> ->. split; [reflexivity|]. split; [lia|]. intros _. split; reflexivity.
+Qed.
+
+(* THE RESULT OF reproc_start in the caller, every fault plan: a negative error with the life-cycle
+   marker unchanged (and, unless the call was rejected outright, no process handle), or 1 with a
+   running handle whose pid is positive and is the one the fork call of this start returned *)
+Theorem reproc_start_result p argv o0 src ck w r p' w' :
+  wf w -> 0 <= w_cur w -> NB w -> (forall q, kp (w_cur w) (ck q)) ->
+  reproc_start p argv o0 src ck w = Ret (r, p') w' ->
+  (r < 0 /\ h_status p' = h_status p) \/
+  (r = 1 /\ 0 < h_handle p' /\ FK (w_trace w) (h_handle p') w' /\ h_status p' = STATUS_IN_PROGRESS).
+Proof.
+  intros W Hpos Hnb Hk E0. unfold reproc_start in E0.
+  assert (Hfail : forall pp r0 o cin cout cerr cexit w1, r0 < 0 -> h_status pp = h_status p ->
+            start_finish pp r0 o cin cout cerr cexit w1 = Ret (r, p') w' ->
+            (r < 0 /\ h_status p' = h_status p) \/
+            (r = 1 /\ 0 < h_handle p' /\ FK (w_trace w) (h_handle p') w' /\ h_status p' = STATUS_IN_PROGRESS)).
+  { intros pp r0 o cin cout cerr cexit w1 Hr0 Hs Ef. apply start_finish_result in Ef as (-> & Hn & _).
+    left. split; [exact Hr0|]. destruct (Hn Hr0) as [_ ->]. exact Hs. }
+  destruct (negb (h_status p =? STATUS_NOT_STARTED)).
+  { apply ret_inv in E0 as [E0 _]. injection E0 as -> ->. left. split; [unfold REPROC_EINVAL; lia|reflexivity]. }
+  destruct (parse_options o0 (argv_form_of argv)) as [o|] eqn:Epo.
+  2:{ refine (Hfail _ _ _ _ _ _ _ _ _ _ E0); [unfold REPROC_EINVAL; lia|reflexivity]. }
+  apply bind_inv in E0 as ([[[r1 pin] cin] rdi] & w1 & E1 & E0). cbv beta iota zeta in E0.
+  pose proof (pc_run _ _ _ _ (pc_redirect_init _ _ _ _ _ _) W E1) as P1.
+  destruct (Z.ltb_spec r1 0). { refine (Hfail _ _ _ _ _ _ _ _ _ _ E0); [assumption|reflexivity]. }
+  apply bind_inv in E0 as ([[[r2 pout] cout] rdo] & w2 & E2 & E0). cbv beta iota zeta in E0.
+  pose proof (pcpost_trans _ _ _ P1 (pc_run _ _ _ _ (pc_redirect_init _ _ _ _ _ _) ltac:(apply P1) E2)) as P2.
+  destruct (Z.ltb_spec r2 0). { refine (Hfail _ _ _ _ _ _ _ _ _ _ E0); [assumption|reflexivity]. }
+  apply bind_inv in E0 as ([[[r3 perr] cerr] rde] & w3 & E3 & E0). cbv beta iota zeta in E0.
+  pose proof (pcpost_trans _ _ _ P2 (pc_run _ _ _ _ (pc_redirect_init _ _ _ _ _ _) ltac:(apply P2) E3)) as P3.
+  destruct (Z.ltb_spec r3 0). { refine (Hfail _ _ _ _ _ _ _ _ _ _ E0); [assumption|reflexivity]. }
+  apply bind_inv in E0 as ([r4 pp] & w4 & E4 & E0). cbv beta iota zeta in E0.
+  destruct (tr_run _ _ _ _ _ _ S_pipe_init ltac:(apply P3) I E4) as [P4' H4]. cbn [fst snd] in H4.
+  pose proof (pcpost_trans _ _ _ P3 P4') as P4.
+  destruct pp as [[pexit cexit]|]; [|refine (Hfail _ _ _ _ _ _ _ _ _ _ E0); [exact H4|reflexivity]].
+  apply bind_inv in E0 as ([r5 pin5] & w5 & E5 & E0). cbv beta iota zeta in E0.
+  pose proof (pcpost_trans _ _ _ P4 (pc_run _ _ _ _ (pc_setup_input _ _ _ _) ltac:(apply P4) E5)) as P5.
+  destruct (Z.ltb_spec r5 0). { refine (Hfail _ _ _ _ _ _ _ _ _ _ E0); [assumption|reflexivity]. }
+  apply bind_inv in E0 as ([r6 h6] & w6 & E6 & E0). cbv beta iota zeta in E0.
+  assert (C5 : w_cur w5 = w_cur w) by apply P5.
+  pose proof P5 as (W5 & _ & _ & (l5 & T5) & _).
+  match type of E6 with process_start _ _ _ ?k _ = _ => assert (Hk5 : kp (w_cur w5) k) end.
+  { rewrite C5. apply kp_bind; [apply kp_start_finish|]. intros [x pc0]. apply Hk. }
+  assert (Hav : argv <> Some []).
+  { intros ->. change (argv_form_of (Some [])) with ArgvEmpty in Epo. rewrite parse_options_empty_argv in Epo. discriminate. }
+  destruct (process_start_result _ _ _ _ _ _ _ _ W5 ltac:(rewrite C5; exact Hpos) ltac:(eapply NB_mono; eassumption) Hk5 Hav E6)
+    as [[Hr6 ->]|(-> & Hh6 & F6)].
+  - destruct (Z.ltb_spec r6 0); [|lia]. refine (Hfail _ _ _ _ _ _ _ _ _ _ E0); [exact Hr6|reflexivity].
+  - change (1 <? 0) with false in E0. cbv iota in E0.
+    apply bind_inv in E0 as (dl & w7 & E7 & E0).
+    pose proof (process_start_pq _ _ _ _ _ _ _ _ W5 ltac:(rewrite C5; exact Hpos) Hk5 E6) as Q6.
+    assert (P7 : pcpost w6 w7).
+    { destruct (negb (o_deadline _ =? REPROC_INFINITE)).
+      - apply bind_inv in E7 as (n & w7' & En & E7). apply ret_inv in E7 as [_ ->].
+        exact (pc_run _ _ _ _ pc_now ltac:(apply Q6) En).
+      - apply ret_inv in E7 as [_ ->]. apply pcpost_refl, Q6. }
+    pose proof (pc_run _ _ _ _ (pc_start_finish _ _ _ _ _ _ _) ltac:(apply P7) E0) as P8.
+    apply start_finish_result in E0 as (-> & _ & Hp). destruct (Hp ltac:(lia)) as [Hh Hs].
+    right. split; [reflexivity|]. rewrite Hh, Hs. cbn [h_handle rp_with_started rp_with_handle]. split; [exact Hh6|]. split; [|reflexivity].
+    eapply FK_mono; [exact P8|]. eapply FK_mono; [exact P7|].
+    destruct F6 as (l & ev & T6 & Hin & X). exists (l ++ l5), ev. split; [rewrite T6, T5, app_assoc; reflexivity|].
+    split; [apply in_or_app; left; exact Hin|exact X].
+Qed.
